@@ -155,7 +155,11 @@ pub fn hook(s: u32, arg: u64) {
                         break;
                     }
                 }
-                st.run_parked = 0;
+                // another job may have parked elsewhere meanwhile (a finished job held at RUN_JOB_DONE
+                // and its successor): only clear our own mark
+                if st.run_parked == s {
+                    st.run_parked = 0;
+                }
             }
             // a run counts as ended when the spawned job is done (lock released, late notification made)
             if s == site::RUN_JOB_DONE {
